@@ -98,7 +98,7 @@ var externals = map[string]ExtInfo{
 // nondetCallee: sources of nondeterminism for G8 (also matched by prefix for
 // packages that are not used today).
 func nondetCallee(name string) bool {
-	if e, ok := externals[name]; ok && e.Nondet {
+	if e, ok := externals[extName(name)]; ok && e.Nondet {
 		return true
 	}
 	for _, p := range []string{"math/rand.", "math/rand/v2.", "crypto/rand.", "(*math/rand.Rand).", "os.Getenv", "os.LookupEnv", "os.Environ", "os.Getpid", "os.Hostname", "os.Getwd", "time.Now", "time.Since", "time.Until", "time.After", "time.Tick", "time.NewTimer", "time.NewTicker", "runtime.NumGoroutine", "runtime.NumCPU"} {
@@ -107,4 +107,12 @@ func nondetCallee(name string) bool {
 		}
 	}
 	return false
+}
+
+// extName: a method value or method expression used as a function value is compiled into a thunk ("...$thunk",
+// "...$bound"); its effects are those of the method.
+func extName(name string) string {
+	name = strings.TrimSuffix(name, "$thunk")
+	name = strings.TrimSuffix(name, "$bound")
+	return name
 }
